@@ -279,7 +279,19 @@ fn gen_labels_balance(rng: &mut Rng, n: usize) -> Vec<f64> {
 
 fn gen_scores(rng: &mut Rng, yt: &[f64]) -> (Vec<f64>, &'static str) {
     let n = yt.len();
-    match rng.below(9) {
+    match rng.below(11) {
+        9 | 10 => {
+            // AUC depends on the ORDER of the scores only: the same scores expressed in a tiny (or huge) unit.  An
+            // absolute tie tolerance such as `|a - b| <= epsilon` is invisible at ordinary magnitudes.
+            let k = if rng.bool() { -(rng.usize_in(50, 300) as i32) } else { rng.usize_in(50, 300) as i32 };
+            let f = (2.0f64).powi(k);
+            let levels = rng.usize_in(2, 40);
+            let tied = rng.bool();
+            (
+                (0..n).map(|_| if tied { rng.below(levels) as f64 * f } else { (1.0 + rng.unit()) * f }).collect(),
+                if k < 0 { "tiny-unit" } else { "huge-unit" },
+            )
+        }
         0 => ((0..n).map(|_| rng.unit()).collect(), "distinct-uniform"),
         1 => {
             let k = rng.usize_in(2, 5);
